@@ -69,14 +69,23 @@ def install(root, graph, default_product=False):
     s = stacks[0]
     for p in graph["products"]:
         n, v = p["name"], p["version"]
-        d = common.mkprod(s, n, v, table_text(p["deps"]))
+        if p.get("notable"):
+            # declared with `-M none`: no ups directory, no table file (behaves as an empty table)
+            assert not p["deps"]
+            d = os.path.join(s, FLAVOR, n, v)
+            os.makedirs(d, exist_ok=True)
+        else:
+            d = common.mkprod(s, n, v, table_text(p["deps"]))
         if p.get("payload", True):
             with open(os.path.join(d, "payload"), "w") as f:
                 f.write("%s %s\n" % (n, v))
         db = os.path.join(s, "ups_db", n)
         os.makedirs(db, exist_ok=True)
         with open(os.path.join(db, v + ".version"), "w") as f:
-            f.write(VERSION_FILE % {"name": n, "version": v})
+            txt = VERSION_FILE % {"name": n, "version": v}
+            if p.get("notable"):
+                txt = txt.replace("UPS_DIR = ups", "UPS_DIR = none").replace("TABLE_FILE = %s.table" % n, "TABLE_FILE = none")
+            f.write(txt)
         for t in p.get("tags", []):
             with open(os.path.join(db, t + ".chain"), "w") as f:
                 f.write(CHAIN_FILE % {"name": n, "version": v, "tag": t})
